@@ -2,7 +2,7 @@
 # run every seeded change (rounds m*, n*, p*, q*, s*, t*, u*) against the check of its property; results -> /verif/seeded/RESULTS.txt
 # SEED_GLOB (default: all rounds) restricts the rounds; with SEED_APPEND=1 the results file is extended, not rewritten
 # pass 1 without the Kani / native harnesses (fast); a change that survives pass 1 is re-run with them.
-# NOTE: mutates /repo while running and overwrites /verif/evidence: regenerate the evidence on the clean tree afterwards.
+# NOTE: mutates /repo while running (seedrun.sh saves and restores the evidence files of the unchanged tree).
 out=/verif/seeded/RESULTS.txt
 glob=${SEED_GLOB:-[mnpqstuvw]*}
 if [ "$SEED_APPEND" = "1" ]; then sed -i '/^done$/d' $out; else : > $out; fi
